@@ -151,6 +151,10 @@ func c11Go(t TV) any {
 		it := &Item{Title: "cyc"}
 		it.Sub = it
 		return it
+	case "cyclic2*Item": // a cycle of two: a.Sub = b, b.Sub = a
+		a, b := &Item{Title: "a"}, &Item{Title: "b"}
+		a.Sub, b.Sub = b, a
+		return a
 	case "deep":
 		var v any = "leaf"
 		for i := 0; i < 2000; i++ {
@@ -225,7 +229,7 @@ var c11Tokens = []string{
 }
 
 func (p *c11) dims(ctx core.Ctx) (soup, types, graph, layout, strct int) {
-	return ctx.Pick(60000, 2000000), len(c11Vals) * len(c11Positions), 512 * 4, 24, 12 + len(c11SlotForward)
+	return ctx.Pick(60000, 2000000), len(c11Vals) * len(c11Positions), 512 * 4, 24, c11NStruct + len(c11SlotForward)
 }
 
 // slot forwarding shapes: a wrapper component hands its own slots on to an
@@ -253,6 +257,11 @@ var c11SlotForward = []map[string]string{
 	{"page.vuego": "---\nlayout: lay\n---\n<template #side><slot name=\"side\">x</slot></template><p>b</p>",
 		"layouts/lay.vuego": `<aside><slot name="side">FB</slot></aside><main v-html="content"></main>`},
 }
+
+var c11StructRoots = []string{"Item", "*Item", "Emb", "cyclic*Item", "cyclic2*Item", "nil*Item", "[]Item", "map[int]string", "string", "int", "chan", "func", "deep"}
+
+// every root through every entry point
+var c11NStruct = len(c11StructRoots) * len(c11EPs)
 
 func (p *c11) Plan(ctx core.Ctx) int {
 	a, b, c, d, e := p.dims(ctx)
@@ -427,15 +436,15 @@ func (p *c11) Gen(ctx core.Ctx, i int) any {
 		return c11Case{Part: "layout", Files: files, Entry: "page.vuego", EP: []string{"file", "renderfile"}[i%2]}
 	}
 	i -= nlayout
-	if ns := 12 + len(c11SlotForward); i >= ns {
+	if ns := c11NStruct + len(c11SlotForward); i >= ns {
 		return c11ExprCase(i - ns)
 	}
-	if i >= 12 {
-		return c11Case{Part: "slotfwd", Files: c11SlotForward[(i-12)%len(c11SlotForward)], Entry: "page.vuego", EP: []string{"file", "vue", "renderfile", "fragment"}[(i-12)%4]}
+	if i >= c11NStruct {
+		return c11Case{Part: "slotfwd", Files: c11SlotForward[(i-c11NStruct)%len(c11SlotForward)], Entry: "page.vuego", EP: []string{"file", "vue", "renderfile", "fragment"}[(i-c11NStruct)%4]}
 	}
-	roots := []string{"Item", "*Item", "Emb", "cyclic*Item", "nil*Item", "[]Item", "map[int]string", "string", "int", "chan", "func", "deep"}
-	return c11Case{Part: "struct", Root: roots[i%len(roots)], EP: c11EPs[i%len(c11EPs)],
-		Tpl: `<p>{{ title }}|{{ Title }}|{{ hidden }}|{{ Plain }}|{{ sub.title }}|{{ Sub.Sub.Sub.title }}|{{ extra }}|{{ Item.title }}</p><p v-if="title == 't'">eq</p><i v-for="t in tags">{{ t }}</i><b :title="count">{{ count + 1 }}</b>`}
+	roots := c11StructRoots
+	return c11Case{Part: "struct", Root: roots[i%len(roots)], EP: c11EPs[(i/len(roots))%len(c11EPs)],
+		Tpl: `<p>{{ title }}|{{ Title }}|{{ hidden }}|{{ Plain }}|{{ sub.title }}|{{ Sub.Sub.Sub.title }}|{{ extra }}|{{ Item.title }}</p><p v-if="title == 't'">eq</p><i v-for="t in tags">{{ t }}</i><b :title="count">{{ count + 1 }}</b><u>{{ sub }}</u><u v-text="sub"></u><u :data-x="sub" v-html="sub"></u><u :class="{a: sub}" v-show="sub">{{ sub | json }}</u><s v-for="(k, v) in sub">{{ k }}={{ v }}</s>`}
 }
 
 func (p *c11) Decode(raw json.RawMessage) (any, error) { return core.JSONDecode[c11Case](raw) }
